@@ -145,8 +145,17 @@ impl<'a> DocGen<'a> {
             }
         }
         let nl = if crlf { "\r\n" } else { "\n" };
+        // one document in three ends in a link with no line ending after it (the last byte of the text is the link's ")")
+        let ends_in_link = self.rng.chance(1, 3);
+        if ends_in_link {
+            lines.push(String::new());
+            let (w, l) = (self.word(), self.link());
+            lines.push(format!("{} {}", w, l));
+        }
         let mut s = lines.join(nl);
-        s.push_str(nl);
+        if !ends_in_link {
+            s.push_str(nl);
+        }
         s
     }
 }
